@@ -262,6 +262,23 @@ func (d *Decoder) readAndAddClassDef() error {
 	return nil
 }
 
+// readScalarTag reads the tag of a scalar field value; class definitions written in front
+// of the value are read and registered first
+func (d *Decoder) readScalarTag() (int32, error) {
+	for {
+		tag, err := d.readTag()
+		if err != nil {
+			return 0, err
+		}
+		if tag != _objectDefTag {
+			return int32(tag), nil
+		}
+		if err = d.readAndAddClassDef(); err != nil {
+			return 0, err
+		}
+	}
+}
+
 //readObjectDef read object def
 func (d *Decoder) readObjectDef() (interface{}, error) {
 	if err := d.readAndAddClassDef(); err != nil {
@@ -319,9 +336,20 @@ func (d *Decoder) readField(fldName string, fldValue reflect.Value) error {
 	sourceValue := fldValue
 	typ := UnpackPtrType(fldValue.Type())
 	fldValue = UnpackPtrValue(fldValue)
+	tag := _tagRead
+	switch typ.Kind() {
+	case reflect.String, reflect.Bool, reflect.Float32, reflect.Float64,
+		reflect.Int, reflect.Int8, reflect.Int16, reflect.Int32, reflect.Int64,
+		reflect.Uint, reflect.Uint8, reflect.Uint16, reflect.Uint32, reflect.Uint64:
+		// value ::= class-def value : the scalar readers do not know the definition tag
+		var err error
+		if tag, err = d.readScalarTag(); err != nil {
+			return err
+		}
+	}
 	switch typ.Kind() {
 	case reflect.String:
-		str, err := d.readString(_tagRead)
+		str, err := d.readString(tag)
 		if err != nil {
 			return err
 		}
@@ -329,39 +357,39 @@ func (d *Decoder) readField(fldName string, fldValue reflect.Value) error {
 			fldValue.SetString(str)
 		}
 	case reflect.Int32, reflect.Int, reflect.Int16, reflect.Int8:
-		i, err := d.readInt(_tagRead)
+		i, err := d.readInt(tag)
 		if err != nil {
 			return err
 		}
 		v := int64(i)
 		fldValue.SetInt(v)
 	case reflect.Uint8, reflect.Uint16:
-		i, err := d.readInt(_tagRead)
+		i, err := d.readInt(tag)
 		if err != nil {
 			return err
 		}
 		v := uint64(i)
 		fldValue.SetUint(v)
 	case reflect.Int64:
-		i, err := d.readLong(_tagRead)
+		i, err := d.readLong(tag)
 		if err != nil {
 			return err
 		}
 		fldValue.SetInt(i)
 	case reflect.Uint64, reflect.Uint, reflect.Uint32:
-		i, err := d.readLong(_tagRead)
+		i, err := d.readLong(tag)
 		if err != nil {
 			return err
 		}
 		fldValue.SetUint(uint64(i))
 	case reflect.Bool:
-		b, err := d.readBoolean(_tagRead)
+		b, err := d.readBoolean(tag)
 		if err != nil {
 			return err
 		}
 		fldValue.SetBool(b)
 	case reflect.Float32, reflect.Float64:
-		f, err := d.readDouble(_tagRead)
+		f, err := d.readDouble(tag)
 		if err != nil {
 			return err
 		}
